@@ -262,6 +262,26 @@ def builders_case(rep, rng):
 					kw.update(demand_type='P', mean=5)
 				elif ds_shape == 'object':
 					kw.update(demand_source=DemandSource(type='P', mean=5))
+				# list- and dict-valued demand sources: slot k of a list belongs to node_order_in_lists[k] (node_order_in_system[k] if no list order is
+				# given), whatever the indices are; one mean per node so that misplaced entries show (own stream: the main one is unchanged)
+				rng_l = random.Random(37 * n + (sum(order) if order else 5) + len(kw))
+				nodes_ = order or (list(range(n + 1)) if kind == 'owmr' else list(range(1, n + 1)) + [0])
+				dem_ = set(nodes_[1:]) if kind == 'owmr' else {nodes_[-1]}
+				want_mean = None
+				if rng_l.random() < .45:
+					ds_shape = rng_l.choice(['list', 'list+order_in_lists', 'dict'])
+					kw.pop('demand_type', None); kw.pop('mean', None); kw.pop('demand_source', None)
+					want_mean = {l: 3 + i_ for i_, l in enumerate(nodes_) if l in dem_}
+					if ds_shape == 'dict':
+						kw['demand_source'] = {l: DemandSource(type='P', mean=m_) for l, m_ in want_mean.items()}
+					else:
+						lo_ = list(nodes_)
+						if ds_shape == 'list+order_in_lists':
+							rng_l.shuffle(lo_); kw['node_order_in_lists'] = lo_
+							for k_ in ('local_holding_cost', 'shipment_lead_time', 'policy_type', 'base_stock_level'):
+								kw[k_] = [kw[k_]] * len(lo_) if not isinstance(kw[k_], list) else kw[k_]
+						kw['demand_source'] = [DemandSource(type='P', mean=want_mean[l]) if l in dem_ else None for l in lo_]
+					rep.count('builders:demand-source-as-' + ds_shape)
 				case.update(order=order, ds=ds_shape)
 				if kind == 'owmr':
 					net = owmr_system(n, node_order_in_system=order, **kw)
@@ -281,6 +301,9 @@ def builders_case(rep, rng):
 					has_dem = nd.demand_source is not None and nd.demand_source.type is not None
 					if ds_shape != 'none' and has_dem != (nd.index in dem_nodes):
 						bad.append('%s: demand source at node %s is %s, documented at %s only' % (kind, nd.index, has_dem, sorted(dem_nodes)))
+					if want_mean is not None and nd.index in dem_nodes and (nd.demand_source is None or nd.demand_source.mean != want_mean[nd.index]):
+						bad.append('%s: node %s got the demand source with mean %s, its own entry has mean %s' % (
+							kind, nd.index, None if nd.demand_source is None else nd.demand_source.mean, want_mean[nd.index]))
 					if (nd.supply_type == 'U') != (nd.index in wh):
 						bad.append('%s: supply_type at node %s is %s' % (kind, nd.index, nd.supply_type))
 			elif kind == 'single':
